@@ -255,17 +255,20 @@ pub fn near_valid(r: &mut Rng) -> (String, &'static str) {
     }
 }
 
-/// Does this opener contribute a parenthesis level (see finding C18-F1: exponential parse time)?
-fn is_paren(open: &str) -> bool {
-    // parenthesised type / or-pattern forms, and the two term forms whose *unclosed* nests back-track
-    // exponentially (`@{ @{ @{ …`, `! [! [! [ …`)
-    open.starts_with('(') || open.starts_with("@{") || open.starts_with("! [")
+/// Does this opener contribute a level of one of the constructs whose parse time doubles per level
+/// (finding C18-F1)? Since 33df1c7 the parenthesised TYPE forms are parsed once per level — and with
+/// them the parenthesised or-patterns, whose time went into the type alternative tried first —
+/// except the process type `(@…` nested in receive position; the two term forms whose *unclosed*
+/// nests back-track (`@{ @{ @{ …`, `! [! [! [ …`) still double.
+fn is_slow(open: &str) -> bool {
+    open.starts_with("(@") || open.starts_with("@{") || open.starts_with("! [")
 }
 
 /// G5 — bracket nesting up to depth 100 (the property's bound), closed, truncated or mismatched.
-/// `paren_cap` bounds how many of the levels may be parenthesised type/pattern forms: parse time
-/// doubles with every such level (known finding C18-F1), so the general stream stays below the
-/// hang threshold and a separate small stream (`deep_parens`) exhibits the finding.
+/// `paren_cap` bounds how many of the levels may be of a form whose parse time doubles with every
+/// level (known finding C18-F1, see `is_slow`), so the general stream stays below the hang threshold
+/// and a separate small stream (`deep_parens`) exhibits the finding. Parenthesised types (repaired
+/// 33df1c7) are NOT capped: they nest up to depth 100 here and must answer at once.
 pub fn nesting(r: &mut Rng, paren_cap: usize) -> (String, usize) {
     let depth = match r.below(6) {
         0 => 100,
@@ -291,7 +294,7 @@ pub fn nesting(r: &mut Rng, paren_cap: usize) -> (String, usize) {
     let mut parens = 0;
     for _ in 0..depth {
         let (mut o, mut c) = if uniform { table[k0] } else { table[r.usize(table.len())] };
-        if is_paren(o) {
+        if is_slow(o) {
             if parens >= paren_cap {
                 (o, c) = table[0];
             } else {
@@ -312,16 +315,41 @@ pub fn nesting(r: &mut Rng, paren_cap: usize) -> (String, usize) {
     (s, depth)
 }
 
-/// Nesting beyond the hang threshold of the four constructs of finding C18-F1.
+/// Nesting beyond the hang threshold of the constructs of finding C18-F1 that still double per level.
 pub fn deep_parens(r: &mut Rng) -> String {
     let depth = 30 + r.usize(71);
-    match r.below(6) {
-        0 => format!("'t = {}'int{}", "(".repeat(depth), ")".repeat(depth)),
-        1 => format!("'t = {}'int{}", "(#".repeat(depth), " -> 'int)".repeat(depth)),
-        2 => format!("={}x{}", "(".repeat(depth), " | 1)".repeat(depth)),
-        3 => format!("'t = {}'int{}", "('bin | ".repeat(depth), ")".repeat(depth)),
-        4 => format!("{}1", "@{ ".repeat(depth)),
+    match r.below(3) {
+        0 => format!("'t = {}'int{}", "(@".repeat(depth), ")".repeat(depth)),
+        1 => format!("{}1", "@{ ".repeat(depth)),
         _ => format!("{}1", "! [".repeat(depth)),
+    }
+}
+
+/// The parenthesised type forms repaired by 33df1c7, at depths far beyond the old hang threshold
+/// (18 levels took 8 s): closed, unclosed, and in the three positions a type can stand in.
+pub fn deep_type_parens(r: &mut Rng) -> String {
+    let depth = 30 + r.usize(71);
+    let forms: &[(&str, &str)] = &[("(", ")"), ("(#", " -> 'int)"), ("('bin | ", ")"), ("(x: ", ")"), ("P(x: ", ")"), ("(#'int -> ", ")"), ("('int & ", ")")];
+    let uniform = r.chance(2, 3);
+    let k0 = r.usize(forms.len());
+    let (mut open, mut close) = (String::new(), String::new());
+    for _ in 0..depth {
+        let (o, c) = if uniform { forms[k0] } else { forms[r.usize(forms.len())] };
+        open.push_str(o);
+        close.insert_str(0, c);
+    }
+    let ty = match r.below(5) {
+        0 => format!("{open}'int"),
+        1 => format!("{open}'int{}", &close[..close.len() / 2]),
+        _ => format!("{open}'int{close}"),
+    };
+    match r.below(6) {
+        0 => format!("f = #{ty} {{ $ }}"),
+        1 => format!("x ~> =({ty})z"),
+        // the or-pattern forms (their time went into the type alternative that is tried first)
+        2 => format!("x ~> ={}y{}", "(".repeat(depth), " | 1)".repeat(depth)),
+        3 => format!("{}x{} = 1", "(a | ".repeat(depth), ")".repeat(depth)),
+        _ => format!("'t = {ty}"),
     }
 }
 
